@@ -35,8 +35,8 @@ CFG = {
             "histories of 8-16 queries and value edits, interleaved with changes of the recursion limit "
             "(mx.set_recursion, raised and lowered between evaluations) and administrative calls that must leave "
             "evaluation alone (stack-trace sessions, get_recursion / get_error / get_traceback, setting the limit "
-            "to the value it has); scenario family: limit x chain just below / at / above it x administrative call "
-            "sequence; non-trivial = a failure of chain length >= 2 followed by a successful evaluation",
+            "to the value it has); scenario families: limit x chain just below / at / above it x administrative call "
+            "sequence; every assignment of allow_none to cells / space / model x a formula returning None; non-trivial = a failure of chain length >= 2 followed by a successful evaluation",
 }
 
 
@@ -225,6 +225,21 @@ def scenarios():
                         ["eval", "0", str(L - 3)], ["admin", "stop"]]
                 out.append({"cells": [dict(c) for c in cells], "refs": {0: 1, 1: 2, 2: 3, 3: 4}, "n_rn": 2,
                             "maxdepth": None, "ops": ops, "label": "limit/L=%d %s %s" % (L, fl, name)})
+    # "returning None where it is not allowed": every assignment of allow_none to the three levels of the look-up
+    # (cells -> space -> model; None = not set at that level) x a formula returning None below a caller
+    for an_c in (None, True, False):
+        for an_s in (None, True, False):
+            for an_m in (False, True):
+                cells = [{"id": 0, "nparams": 1, "cached": True, "allow_none": an_c, "body": ("none",),
+                          "an_space": an_s, "an_model": an_m},
+                         {"id": 1, "nparams": 1, "cached": True, "allow_none": None,
+                          "body": ("if", ("call", 0, [P0]), ("lit", 1), ("lit", 2))},
+                         {"id": 2, "nparams": 1, "cached": True, "allow_none": an_c,
+                          "body": ("if", ("lt", ("lit", 0), P0), ("none",), ("call", 1, [P0]))}]
+                ops = [["eval", "1", "1"], ["eval", "0", "1"], ["set", "0", "2", "=", "N"], ["eval", "1", "2"],
+                       ["eval", "2", "0"], ["eval", "2", "3"], ["eval", "1", "1"]]
+                out.append({"cells": cells, "refs": {0: 1, 1: 2, 2: 3, 3: 4}, "n_rn": 2, "maxdepth": None,
+                            "ops": ops, "label": "allownone/cells=%s space=%s model=%s" % (an_c, an_s, an_m)})
     return out
 
 
